@@ -124,6 +124,99 @@ Theorem C15_tables_agree : forall m bits,
 Proof. exact client_method_on_server. Qed.
 Print Assumptions C15_tables_agree.
 
+(* ================================================================ transports of the authorization request
+   delivery (Model/Pkce.v): plain front channel | request object by value | by reference (request_uri) | pushed
+   (PAR; plain body or an object in the body) then redeemed through the issued urn.  protected_of d is the PKCE
+   pair of the authenticated / protected request, front_of d what travelled next to it through the user agent,
+   assembled d what the PKCE hook sees; recorded_d what the grant of the code then records. *)
+
+(* a front-channel challenge next to a protected one never becomes the recorded one: whatever the transport,
+   the challenge (method) of the protected request is the assembled one *)
+Theorem C15_transport_protected_challenge_recorded : forall d p c,
+  protected_of d = Some p -> fst p = Some c -> fst (assembled d) = Some c.
+Proof. exact assembled_challenge_protected. Qed.
+Print Assumptions C15_transport_protected_challenge_recorded.
+
+Theorem C15_transport_protected_method_recorded : forall d p m,
+  protected_of d = Some p -> snd p = Some m -> snd (assembled d) = Some m.
+Proof. exact assembled_method_protected. Qed.
+Print Assumptions C15_transport_protected_method_recorded.
+
+(* for a pushed request and a request object passed by value the protected request IS the request ... *)
+Theorem C15_transport_protected_is_request : forall d p,
+  protected_of d = Some p -> (forall o f, d <> DRef o f) -> assembled d = p.
+Proof. exact assembled_is_protected. Qed.
+Print Assumptions C15_transport_protected_is_request.
+
+(* ... so the front channel changes nothing at all *)
+Theorem C15_transport_pushed_front_irrelevant : forall HB cf ce b f f' cv t,
+  flow_d HB cf ce (DPushed b f) cv t = flow_d HB cf ce (DPushed b f') cv t.
+Proof. exact flow_d_pushed_front_irrelevant. Qed.
+Print Assumptions C15_transport_pushed_front_irrelevant.
+
+Theorem C15_transport_value_front_irrelevant : forall HB cf ce o f f' cv t,
+  flow_d HB cf ce (DValue o f) cv t = flow_d HB cf ce (DValue o f') cv t.
+Proof. exact flow_d_value_front_irrelevant. Qed.
+Print Assumptions C15_transport_value_front_irrelevant.
+
+(* the only way a front-channel parameter reaches the PKCE hook next to a protected request: the protected
+   request (a request_uri document) does not carry that parameter *)
+Theorem C15_transport_front_fills_gaps_only : forall d p,
+  protected_of d = Some p ->
+  (fst p = None -> fst (assembled d) = None \/ exists o f, d = DRef o f /\ fst (assembled d) = fst (front_of d))
+  /\ (snd p = None -> snd (assembled d) = None \/ exists o f, d = DRef o f /\ snd (assembled d) = snd (front_of d)).
+Proof. exact assembled_gap. Qed.
+Print Assumptions C15_transport_front_fills_gaps_only.
+
+(* the token endpoint accepts a verifier iff it transforms to the challenge of the protected request *)
+Theorem C15_transport_tokens_iff : forall HB cf ce d p c cv t,
+  protected_of d = Some p -> fst p = Some c ->
+  (flow_d HB cf ce d cv t = Tokens <->
+   recorded_d cf ce d = Ok (Some c, recorded_method (snd (assembled d)))
+   /\ exists v k, norm cv = Some v
+                  /\ assoc (recorded_method (snd (assembled d))) server_cc_methods = Some k
+                  /\ tr HB k v = Ok c).
+Proof. exact transport_tokens_iff. Qed.
+Print Assumptions C15_transport_tokens_iff.
+
+Theorem C15_transport_bound : forall HB cf ce d p c cv t,
+  protected_of d = Some p -> fst p = Some c -> flow_d HB cf ce d cv t = Tokens ->
+  exists v k, norm cv = Some v
+              /\ assoc (recorded_method (snd (assembled d))) server_cc_methods = Some k
+              /\ tr HB k v = Ok c.
+Proof. exact transport_bound. Qed.
+Print Assumptions C15_transport_bound.
+
+Theorem C15_transport_missing_verifier_refused : forall HB cf ce d p c cv t,
+  protected_of d = Some p -> fst p = Some c -> norm cv = None ->
+  flow_d HB cf ce d cv t = AzRefused 2 \/ flow_d HB cf ce d cv t = TkRefused 3.
+Proof. exact transport_missing_verifier_refused. Qed.
+Print Assumptions C15_transport_missing_verifier_refused.
+
+(* the verifier of a different challenge c' (say, the one somebody put on the front channel) redeems nothing *)
+Theorem C15_transport_front_verifier_refused : forall HB cf ce d p c c' cv t v,
+  protected_of d = Some p -> fst p = Some c -> norm cv = Some v -> c' <> c ->
+  (forall k, assoc (recorded_method (snd (assembled d))) server_cc_methods = Some k -> tr HB k v = Ok c') ->
+  flow_d HB cf ce d cv t <> Tokens.
+Proof. exact transport_front_verifier_refused. Qed.
+Print Assumptions C15_transport_front_verifier_refused.
+
+(* the complete pair of the protected request with its verifier is accepted, whatever the front channel carries *)
+Theorem C15_transport_accepts : forall HB cf ce d p c m k v t,
+  protected_of d = Some p -> p = (Some c, Some m) -> In m (pc_methods cf) ->
+  assoc m server_cc_methods = Some k -> v <> [] -> tr HB k v = Ok c ->
+  flow_d HB cf ce d (Some v) t = Tokens.
+Proof. exact transport_accepts. Qed.
+Print Assumptions C15_transport_accepts.
+
+(* essential: a front-channel challenge does not make up for a pushed request / request object without one *)
+Theorem C15_transport_essential : forall HB cf ce d p cv t,
+  essential_eff (pc_essential cf) ce = true ->
+  protected_of d = Some p -> (forall o f, d <> DRef o f) -> fst p = None ->
+  flow_d HB cf ce d cv t = AzRefused 1.
+Proof. exact transport_essential_front_does_not_count. Qed.
+Print Assumptions C15_transport_essential.
+
 (* ---- non-vacuity: a concrete injective, non-empty "hash" (prefix a character) ---- *)
 Definition HBx (n : N) (v : pystr) : pystr := 72 :: v.
 Definition cf_all := mk_pkce_conf [PS "plain"; PS "S256"; PS "S384"; PS "S512"] true.
@@ -145,3 +238,45 @@ Example C15_nonvacuous_rp :
   exists c, rp_make HBx None (PS "abc-._~XYZ") = Ok (c, PS "S256")
             /\ flow HBx cf_all None (Some c) (Some (PS "S256")) (Some (PS "abc-._~XYZ")) None = Tokens.
 Proof. eexists. split; vm_compute; reflexivity. Qed.
+
+Definition pkA : pk := (Some (HBx 256 (PS "verifier-A")), Some (PS "S256")).
+Definition pkB : pk := (Some (HBx 256 (PS "verifier-B")), Some (PS "S256")).
+Definition pk0 : pk := (None, None).
+Example C15_nonvacuous_transport :
+  (* pushed A, front channel says B: only A's verifier redeems *)
+  flow_d HBx cf_all None (DPushed (PbPlain pkA) pkB) (Some (PS "verifier-A")) None = Tokens
+  /\ flow_d HBx cf_all None (DPushed (PbPlain pkA) pkB) (Some (PS "verifier-B")) None = TkRefused 4
+  /\ flow_d HBx cf_all None (DPushed (PbObject pkA pkB) pkB) (Some (PS "verifier-B")) None = TkRefused 4
+  /\ flow_d HBx cf_all None (DValue pkA pkB) (Some (PS "verifier-B")) None = TkRefused 4
+  /\ flow_d HBx cf_all None (DRef pkA pkB) (Some (PS "verifier-B")) None = TkRefused 4
+  /\ flow_d HBx cf_all None (DRef pkA pkB) (Some (PS "verifier-A")) None = Tokens
+  (* same challenge, front channel names 'plain': the challenge replayed as verifier redeems nothing *)
+  /\ flow_d HBx cf_all None (DPushed (PbPlain pkA) (fst pkA, Some (PS "plain"))) (fst pkA) None = TkRefused 4
+  (* essential, pushed without a challenge: the front-channel one does not count *)
+  /\ flow_d HBx cf_all None (DPushed (PbPlain pk0) pkB) (Some (PS "verifier-B")) None = AzRefused 1
+  /\ flow_d HBx cf_all None (DValue pk0 pkB) (Some (PS "verifier-B")) None = AzRefused 1
+  (* a request_uri document WITHOUT the parameter: the front-channel one fills the gap (the guard of
+     C15_transport_protected_is_request / C15_transport_essential is necessary) *)
+  /\ flow_d HBx cf_all None (DRef pk0 pkB) (Some (PS "verifier-B")) None = Tokens
+  /\ recorded_d cf_all None (DPushed (PbPlain pkA) pkB) = Ok (fst pkA, PS "S256").
+Proof. repeat split; vm_compute; reflexivity. Qed.
+
+(* Tie to the source: Gen/Src_pkce.v is the CURRENT idpyoidc.server.oauth2.add_on.pkce.verify_code_challenge, translated
+   by harness/py2v.py on every run (CC_METHOD = the regenerated table server_cc_methods over the abstract hash HB). *)
+From Verif Require Lib.PyOps Gen.Src_pkce Proofs.Src_refine_pkce.
+Theorem C15_verify_code_challenge_is_source : forall HB v c m clock,
+  Src_pkce.verify_code_challenge_src (Src_refine_pkce.cc_method_env HB) (VStr v) (VStr c) (VStr m) clock
+  = match assoc m server_cc_methods with
+    | None => Err KeyError
+    | Some k => bind (tr HB k v) (fun t => Ok (VBool (str_eqb t c)))
+    end.
+Proof. exact Src_refine_pkce.verify_code_challenge_refines. Qed.
+Print Assumptions C15_verify_code_challenge_is_source.
+(* ... and the model's token leg decides by exactly that value *)
+Theorem C15_token_leg_is_source : forall HB c m v tccm clock,
+  v <> [] ->
+  token_leg HB (Some c, m) (Some v) tccm
+  = bind (Src_pkce.verify_code_challenge_src (Src_refine_pkce.cc_method_env HB) (VStr v) (VStr c) (VStr m) clock)
+         (fun b => if py_truthy b then Ok tt else Err (Refused 4)).
+Proof. exact Src_refine_pkce.token_leg_is_source. Qed.
+Print Assumptions C15_token_leg_is_source.
